@@ -157,6 +157,7 @@ type httpRun struct {
 	values   []hostile
 	perChar  int
 	misses   []controlMiss
+	missN    int
 	evOK     int
 	done     map[string]bool
 	strays   []string
@@ -166,6 +167,7 @@ type httpRun struct {
 
 func (h *httpRun) miss(e *entry, what string) {
 	h.r.Count("http_control_misses", 1)
+	h.missN++
 	if len(h.misses) < 30 {
 		h.misses = append(h.misses, controlMiss{e.s.Name + " (" + e.p.String() + ", " + e.c.Format + ")", what})
 	}
@@ -268,6 +270,7 @@ func (h *httpRun) exercise(e *entry, idx int) {
 				pick = append(pick, hv)
 			}
 		}
+		pick = append(pick, domainValues(e.c)...)
 		if h.perChar < len(pick) {
 			h.rnd.Shuffle(len(pick), func(i, j int) { pick[i], pick[j] = pick[j], pick[i] })
 			pick = pick[:h.perChar]
@@ -700,8 +703,8 @@ func (h *httpRun) batchSubscribe() {
 func oneLayout(r *vf.Run, subjects []subject, layoutNo int, done map[string]bool, synthCover map[string]bool) {
 	rnd := r.RandN("http-layout", layoutNo)
 	h := &httpRun{r: r, rnd: rnd, done: done, layoutNo: layoutNo}
-	h.values = hostileValues(rnd, r.Pick(0, 20))
-	h.perChar = r.Pick(12, 1000)
+	h.values = hostileValues(rnd, r.Pick(0, 40))
+	h.perChar = r.Pick(1000, 1000) // every JSON-encodable hostile value on every eligible characteristic
 
 	order := rnd.Perm(len(subjects))
 	svcSize := 8 + rnd.Intn(17)
@@ -805,7 +808,7 @@ func oneLayout(r *vf.Run, subjects []subject, layoutNo int, done map[string]bool
 	if p := app.HTTPPanics(app.TakeStdLog()); len(p) > 0 {
 		r.Count("http_handler_panics(C12/C13)", len(p))
 		for _, x := range p {
-			r.Distinct("panic_sites_skipped(C12)", vf.PanicSite(x.Stack, "brutella/hc"))
+			notePanic("http handler: " + vf.PanicSite(x.Stack, "brutella/hc"))
 		}
 	}
 	if len(h.noValue) > 0 {
@@ -816,7 +819,7 @@ func oneLayout(r *vf.Run, subjects []subject, layoutNo int, done map[string]bool
 	}
 	if len(h.misses) > 0 {
 		r.Extra(fmt.Sprintf("positive_control_misses_layout_%d", layoutNo), h.misses)
-		r.Inconclusive(fmt.Sprintf("positive control failed %d time(s) in layout %d (C10 / C09 own the cause), first: %s: %s", len(h.misses), layoutNo, h.misses[0].Subject, h.misses[0].What))
+		r.Inconclusive(fmt.Sprintf("positive control failed %d time(s) in layout %d (C10 / C09 own the cause), first: %s: %s", h.missN, layoutNo, h.misses[0].Subject, h.misses[0].What))
 	}
 	r.Floor(fmt.Sprintf("http layout %d: ev characteristics that delivered exactly the expected EVENTs (positive control)", layoutNo), h.evOK, 50)
 }
@@ -824,7 +827,7 @@ func oneLayout(r *vf.Run, subjects []subject, layoutNo int, done map[string]bool
 func httpPath(r *vf.Run, subjects []subject) {
 	done := map[string]bool{}
 	synthCover := map[string]bool{}
-	layouts := r.Pick(2, 4)
+	layouts := r.Pick(1, 5)
 	for k := 0; k < layouts; k++ {
 		oneLayout(r, subjects, k, done, synthCover)
 	}
